@@ -140,6 +140,13 @@ func (w *world) Run(t *rt.Tape, trace bool) *core.Result {
 		}
 	}
 	var sDone, rDone bool
+	// message-level transport: in half of the cases SendData consumes its payload late and
+	// sometimes blocks first (back-pressure)
+	slowSend := 0
+	if !useConn && t.Choose(rt.SGen, 2) == 0 {
+		slowSend = []int{2, 4, 16}[t.Choose(rt.SGen, 3)]
+		smp.Transport += fmt.Sprintf(" (SendData blocks before consuming its payload, one call in %d)", slowSend)
+	}
 	var mk func() link
 	mk = func() link {
 		if useConn {
@@ -148,6 +155,7 @@ func (w *world) Run(t *rt.Tape, trace bool) *core.Result {
 			return link{s: ca, r: cb, closeS: func() { ca.Close() }, closeR: func() { cb.Close() }, ea: ea}
 		}
 		a, b := simio.Pair("S", "R")
+		a.SlowSend, b.SlowSend = slowSend, slowSend
 		return link{s: a, r: b, closeS: a.Close, closeR: b.Close}
 	}
 	newBase := func(r *simrand.DRBG, real bool) ot.OT {
